@@ -699,7 +699,7 @@ func extractOptions() {
 	pkgs = append(pkgs, optionPkgs...)
 	for _, pk := range pkgs {
 		for _, fd := range loadPkg(pk).allFuncs() {
-			if fd.Name.Name == "SetOption" && fd.Body != nil {
+			if (fd.Name.Name == "SetOption" || (fd.Name.Name == "set" && recvTypeName(fd) == "options")) && fd.Body != nil {
 				extractOptionFunc(pk, fd, &ents)
 			}
 		}
@@ -708,6 +708,39 @@ func extractOptions() {
 	for _, e := range ents {
 		rows = append(rows, fmt.Sprintf("⟨%s, %s, %s, %s, %s⟩", leanStr(e.pkg), leanStr(e.recv), leanStr(e.opt), leanStr(e.ty), e.guard.Lean()))
 	}
+	// option name constants of options.go
+	names := []string{}
+	rc := loadPkg(".").consts()
+	keys := []string{}
+	for k := range rc {
+		if strings.HasPrefix(k, "Option") {
+			keys = append(keys, k)
+		}
+	}
+	sort.Strings(keys)
+	for _, k := range keys {
+		if bl, ok := rc[k].(*ast.BasicLit); ok && bl.Kind == token.STRING {
+			names = append(names, fmt.Sprintf("(%s, %s)", leanStr(k), bl.Value))
+		}
+	}
+	emit("def optionNames : List (String × String) := [%s]\n", strings.Join(names, ", "))
+	// delegation: SetOption handlers that pass unknown options on
+	dels := []string{}
+	for _, pk := range pkgs {
+		for _, fd := range loadPkg(pk).allFuncs() {
+			if fd.Name.Name != "SetOption" || fd.Body == nil {
+				continue
+			}
+			ast.Inspect(fd.Body, func(x ast.Node) bool {
+				if c, ok := x.(*ast.CallExpr); ok && strings.HasSuffix(exprString(c.Fun), ".SetOption") {
+					dels = append(dels, fmt.Sprintf("(%s, %s, %s)", leanStr(pk), leanStr(recvTypeName(fd)), leanStr(strings.TrimSuffix(exprString(c.Fun), ".SetOption"))))
+				}
+				return true
+			})
+		}
+	}
+	sort.Strings(dels)
+	emit("def optDelegates : List (String × String × String) := [%s]\n", strings.Join(dels, ", "))
 	emit("/-- every `case Option…:` of every SetOption: (package, receiver type, option, asserted Go type, range guard over v) -/\n")
 	emit("def optTable : List OptRow := [\n  %s]\n\n", strings.Join(rows, ",\n  "))
 }
